@@ -45,15 +45,45 @@ def hx(s):
     return s.encode('utf-8').hex()
 
 
+DELIMS = ('(', ')', '[', ']', '{', '}')
+
+
+def classify(tok, ops):
+    """harness-written token text -> (kind, text); kind in name|num|str|bool|op|delim|,|;"""
+    if isinstance(tok, tuple):
+        return tok
+    if tok in DELIMS:
+        return ('delim', tok)
+    if tok == ',':
+        return (',', tok)
+    if tok == ';':
+        return (';', tok)
+    if tok in ops or tok in ('?', ':'):
+        return ('op', tok)
+    if tok in ('true', 'True', 'false', 'False'):
+        return ('bool', tok)
+    if tok[0].isdigit():
+        return ('num', tok)
+    if tok[0] in '"\'':
+        return ('str', tok[1:-1])
+    if tok[0].isalpha() or tok[0] in '_.':
+        return ('name', tok)
+    return ('op', tok)
+
+
 class RefParser:
-    def __init__(self, tokens, infix, prefix=BUILTIN_PREFIX, postfix=BUILTIN_POSTFIX, gt=None, ge=None):
-        """infix: name -> (prec, assoc).  gt(a,b)/ge(a,b): decide comparisons of precedences
-        (default: concrete ints)."""
-        self.t = list(tokens)
+    def __init__(self, tokens, infix, prefix=BUILTIN_PREFIX, postfix=BUILTIN_POSTFIX, gt=None, ge=None, any_prefix=False):
+        """tokens: strings (classified here) or (kind, text) pairs.  infix: name -> (prec, assoc, ..).
+        gt(a,b)/ge(a,b): decide comparisons of precedences (default: concrete ints).
+        any_prefix: accept every operator token in operand position as a prefix operator (the set of
+        registered prefix operators is open; used by the C05 recogniser)."""
+        ops = set(infix) | set(prefix) | set(postfix) | {'not'}
+        self.t = [classify(t, ops) for t in tokens]
         self.i = 0
         self.infix = infix
         self.prefix = set(prefix)
         self.postfix = set(postfix)
+        self.any_prefix = any_prefix
         self.gt = gt or (lambda a, b: a > b)
         self.ge = ge or (lambda a, b: a >= b)
 
@@ -61,13 +91,24 @@ class RefParser:
         j = self.i + k
         return self.t[j] if j < len(self.t) else None
 
+    def is_op(self, tok, text=None):
+        return tok is not None and tok[0] == 'op' and (text is None or tok[1] == text)
+
+    def is_delim(self, tok, text):
+        return tok is not None and tok[0] == 'delim' and tok[1] == text
+
     def next(self):
         tok = self.peek()
         self.i += 1
         return tok
 
-    def expect(self, s):
-        if self.peek() != s:
+    def expect_op(self, s):
+        if not self.is_op(self.peek(), s):
+            raise RefError('expected %r at %d, got %r' % (s, self.i, self.peek()))
+        self.i += 1
+
+    def expect_delim(self, s):
+        if not self.is_delim(self.peek(), s):
             raise RefError('expected %r at %d, got %r' % (s, self.i, self.peek()))
         self.i += 1
 
@@ -75,7 +116,7 @@ class RefParser:
         items = []
         while self.peek() is not None:
             items.append(self.expr())
-            if self.peek() == ';':
+            if self.peek() is not None and self.peek()[0] == ';':
                 self.next()
         if len(items) == 1:
             return items[0]
@@ -83,10 +124,10 @@ class RefParser:
 
     def expr(self):
         lhs = self.chain(None, False)
-        if self.peek() == '?':
+        if self.is_op(self.peek(), '?'):
             self.next()
             a = self.expr()
-            self.expect(':')
+            self.expect_op(':')
             b = self.expr()
             return {'k': 'ternary', 'c': lhs, 'a': a, 'b': b}
         return lhs
@@ -96,13 +137,16 @@ class RefParser:
         lhs = self.operand()
         while True:
             tok = self.peek()
+            if not self.is_op(tok):
+                break
             neg = False
-            op = tok
-            if tok == 'not':
-                op = self.peek(1)
+            op = tok[1]
+            if op == 'not':
+                nxt = self.peek(1)
                 neg = True
-                if op not in self.infix:
+                if not self.is_op(nxt) or nxt[1] not in self.infix:
                     raise RefError('`not` must be followed by an infix operator')
+                op = nxt[1]
             if op not in self.infix:
                 break
             p, assoc = self.infix[op][0], self.infix[op][1]
@@ -121,78 +165,72 @@ class RefParser:
 
     def operand(self):
         tok = self.peek()
-        if tok in self.prefix and tok not in ('(', '[', '{'):
+        if self.is_op(tok) and (tok[1] in self.prefix or self.any_prefix):
             self.next()
-            return {'k': 'unary', 'op': hx(tok), 'a': self.primary()}
+            # the operand of a prefix operator is a primary, which may itself start with a prefix operator
+            return {'k': 'unary', 'op': hx(tok[1]), 'a': self.operand()}
         return self.primary()
 
     def primary(self):
         a = self.atom()
-        if self.peek() in self.postfix:
-            op = self.next()
-            return {'k': 'postfix', 'op': hx(op), 'a': a}
+        tok = self.peek()
+        if self.is_op(tok) and tok[1] in self.postfix:
+            self.next()
+            return {'k': 'postfix', 'op': hx(tok[1]), 'a': a}
         return a
+
+    def seq(self, close, item):
+        items = []
+        while not self.is_delim(self.peek(), close):
+            if self.peek() is None:
+                raise RefError('missing ' + close)
+            items.append(item())
+            if self.peek() is not None and self.peek()[0] == ',':
+                self.next()
+            elif not self.is_delim(self.peek(), close):
+                raise RefError('expected , or ' + close)
+        self.expect_delim(close)
+        return items
 
     def atom(self):
         tok = self.next()
         if tok is None:
             raise RefError('unexpected end')
-        if tok == '(':
-            e = self.expr()
-            self.expect(')')
-            return e
-        if tok == '[':
-            items = []
-            while self.peek() != ']':
-                items.append(self.expr())
-                if self.peek() == ',':
-                    self.next()
-                elif self.peek() != ']':
-                    raise RefError('expected , or ]')
-            self.expect(']')
-            return {'k': 'list', 'items': items}
-        if tok == '{':
-            items = []
-            while self.peek() != '}':
-                k = self.expr()
-                self.expect(':')
-                v = self.expr()
-                items.append([k, v])
-                if self.peek() == ',':
-                    self.next()
-                elif self.peek() != '}':
-                    raise RefError('expected , or }')
-            self.expect('}')
-            return {'k': 'map', 'items': items}
-        if tok in ('true', 'True'):
-            return {'k': 'bool', 'v': True}
-        if tok in ('false', 'False'):
-            return {'k': 'bool', 'v': False}
-        if tok[0].isdigit():
-            if '.' in tok:
-                ip, fp = tok.split('.')
-                return {'k': 'num', 'm': str(int(ip + fp)), 's': len(fp)}
-            return {'k': 'num', 'm': str(int(tok)), 's': 0}
-        if tok[0] in '"\'':
-            return {'k': 'str', 'hex': hx(tok[1:-1])}
-        if tok[0].isalpha() or tok[0] == '_':
-            if self.peek() == '(':
+        kind, text = tok
+        if kind == 'delim':
+            if text == '(':
+                e = self.expr()
+                self.expect_delim(')')
+                return e
+            if text == '[':
+                return {'k': 'list', 'items': self.seq(']', self.expr)}
+            if text == '{':
+                def entry():
+                    k = self.expr()
+                    self.expect_op(':')
+                    v = self.expr()
+                    return [k, v]
+                return {'k': 'map', 'items': self.seq('}', entry)}
+            raise RefError('unexpected closing delimiter ' + text)
+        if kind == 'bool':
+            return {'k': 'bool', 'v': text in ('true', 'True')}
+        if kind == 'num':
+            if '.' in text:
+                ip, fp = text.split('.')
+                return {'k': 'num', 'm': str(int((ip or '0') + fp)), 's': len(fp)}
+            return {'k': 'num', 'm': str(int(text)), 's': 0}
+        if kind == 'str':
+            return {'k': 'str', 'hex': hx(text)}
+        if kind == 'name':
+            if self.is_delim(self.peek(), '('):
                 self.next()
-                args = []
-                while self.peek() != ')':
-                    args.append(self.expr())
-                    if self.peek() == ',':
-                        self.next()
-                    elif self.peek() != ')':
-                        raise RefError('expected , or )')
-                self.expect(')')
-                return {'k': 'call', 'name': hx(tok), 'args': args}
-            return {'k': 'ref', 'name': hx(tok)}
-        raise RefError('unexpected token %r' % tok)
+                return {'k': 'call', 'name': hx(text), 'args': self.seq(')', self.expr)}
+            return {'k': 'ref', 'name': hx(text)}
+        raise RefError('unexpected token %r' % (tok,))
 
 
-def ref_parse(tokens, infix, gt=None, ge=None, prefix=BUILTIN_PREFIX, postfix=BUILTIN_POSTFIX):
-    p = RefParser(tokens, infix, prefix, postfix, gt, ge)
+def ref_parse(tokens, infix, gt=None, ge=None, prefix=BUILTIN_PREFIX, postfix=BUILTIN_POSTFIX, any_prefix=False):
+    p = RefParser(tokens, infix, prefix, postfix, gt, ge, any_prefix)
     r = p.program()
     if p.peek() is not None:
         raise RefError('trailing tokens')
